@@ -656,6 +656,15 @@ func checkAbs(c AbsCase) vk.Verdict {
 				if err := sess.Reset(); err == nil {
 					herr = "Reset() succeeded although the storage refused the Delete"
 				}
+			case "destroyfault":
+				// Destroy of a live session while the storage refuses the Delete (the last thing the handler does): the
+				// call fails; what stays behind under the id is still a session with the absolute deadline it had
+				if allowReget {
+					absStore.FailNextDelete()
+					if err := sess.Destroy(); err == nil {
+						herr = "Destroy() succeeded although the storage refused the Delete"
+					}
+				}
 			case "clear":
 				// "empty the session": delete every key the session reports
 				for _, k := range sess.Keys() {
@@ -757,7 +766,7 @@ func checkAbs(c AbsCase) vk.Verdict {
 			m = nil
 		}
 		if m != nil {
-			if seenID != cred || seenA != m.a {
+			if seenID != cred || (seenA != m.a && m.a != "?") {
 				return vk.Failf("%s: the session is %v short of its absolute deadline, the handler got id %q with a=%q, want id %q with a=%q", ctx, m.deadline-planned, seenID, seenA, cred, m.a)
 			}
 		} else {
@@ -773,6 +782,10 @@ func checkAbs(c AbsCase) vk.Verdict {
 		cur := seenID
 		for j, op := range st.Ops {
 			switch op {
+			case "destroyfault":
+				if allowReget {
+					m.a = "?" // a failed Destroy: which data survives is not determined; same session, same deadline
+				}
 			case "set":
 				m.a = fmt.Sprintf("v%d_%d", i, j)
 			case "resetfault":
@@ -824,7 +837,7 @@ func checkAbs(c AbsCase) vk.Verdict {
 	return v
 }
 
-var propAbs = vk.Register(&vk.Prop[AbsCase]{Property: property, Name: "absolute", Check: checkAbs, Quick: 8, Thorough: 24,
+var propAbs = vk.Register(&vk.Prop[AbsCase]{Property: property, Name: "absolute", Check: checkAbs, Quick: 10, Thorough: 30,
 	Gen: func(t *rapid.T) AbsCase {
 		c := AbsCase{API: rapid.SampledFrom([]string{"middleware", "store"}).Draw(t, "api")}
 		n := rapid.IntRange(4, 6).Draw(t, "n")
@@ -841,6 +854,13 @@ var propAbs = vk.Register(&vk.Prop[AbsCase]{Property: property, Name: "absolute"
 					st.Ops = append(st.Ops, "resetfault") // a failing Reset, then the data is set again
 				}
 				st.Ops = append(st.Ops, op)
+			}
+			plain := true
+			for _, op := range st.Ops {
+				plain = plain && (op == "set" || op == "clear")
+			}
+			if c.API == "middleware" && plain && rapid.IntRange(0, 1).Draw(t, "destroyfault") == 0 {
+				st.Ops = append(st.Ops, "destroyfault")
 			}
 			c.Steps = append(c.Steps, st)
 		}
